@@ -677,13 +677,21 @@ class _FFTProxy(object):
 
 
 class _NoErrstate(object):
+    """numpy.errstate: nothing to switch for exact arithmetic, except that inside
+    errstate(divide='ignore') a non-zero constant divided by the constant zero is the node @inf
+    (the code overwrites or inverts such entries: 1/E with zeros in E, then H[block] = 0)"""
+
     def __init__(self, *a, **k):
-        pass
+        self.div = k.get('divide', k.get('all')) == 'ignore'
 
     def __enter__(self):
+        if self.div:
+            S._HOOKS['divide_ignored'] = S._HOOKS.get('divide_ignored', 0) + 1
         return self
 
     def __exit__(self, *a):
+        if self.div:
+            S._HOOKS['divide_ignored'] -= 1
         return False
 
 
